@@ -81,8 +81,8 @@ define("C08", "Properties/C08.v", [], [("crc", [])],
 define("C09", "Properties/C09.v", ["C09_inst.v"], [("msg", [])],
        "Theorems: the decoder's mask scans are the MSB-first positions of set bits; NSat/NSig/NCell = popcount = number of map entries; i-th satellite entry / k-th cell (satellite-major) labelled from the tables with the N/A marker for undefined ids, both label options; derived-label fields store exactly the map entry. Per run: the working tree's PRN/signal tables equal the pinned RTCM 10403.3 tables for all 7 constellations.",
        "MSM payloads of all 49 types x mask shapes (random, full, empty, last slot, reserved ids, >64 cells) x both label options")
-define("C10", None, ["C10_inst.v"], [("tables", [])],
-       "Per-run kernel-decided table theorems on the regenerated tables: every layout well-formed (defined fields, counts/conditions refer to unscaled integer fields decoded earlier, no malformed node); every identity's length polynomial equals the pinned one (RTCM 10403.3 / IGS SSR v1); 107 sibling relations (combined = orbit + clock for GPS, GLONASS and six IGS constellations; extended contains basic; one MSM layout per level). Direct search: every identity decodes encoder-built payloads of the pinned length; bit transplants between sibling blocks decode to the same values.",
+define("C10", "Properties/C10.v", ["C10_inst.v", "C10_len_inst.v"], [("tables", [])],
+       "Theorems (all tables, payloads, options): a successful decode consumes exactly the bits its layout's length polynomial gives on the decoded repeat counts / masks / conditions (walk_sound, walk_bits_peval), hence the pinned standard number, and the payload is at least that long; side conditions (counts keep their value, polynomial faithful) decided per run. Per-run kernel-decided table theorems on the regenerated tables: every layout well-formed (defined fields, counts/conditions refer to unscaled integer fields decoded earlier, no malformed node); every identity's length polynomial equals the pinned one (RTCM 10403.3 / IGS SSR v1); 107 sibling relations (combined = orbit + clock for GPS, GLONASS and six IGS constellations; extended contains basic; one MSM layout per level). Direct search: every identity decodes encoder-built payloads of the pinned length; bit transplants between sibling blocks decode to the same values.",
        "all identities x 2..6 payloads; transplants for 8 combined triples and 35 parallel pairs", diag="C10_diag.v")
 define("C11", "Properties/C11.v", ["C02_inst.v"], [("sock", []), ("reader", [])],
        "Theorems: for every recv-event list and read-size sequence: handed-out bytes ++ buffer ++ data to come is invariant; each read is full-length or empty; an empty read happens only at timeout/close/end and keeps everything received; data-only segmentations give identical reads; the reader over a socket yields the same complete trace as over a file for every segmentation of a well-formed stream.",
